@@ -325,7 +325,8 @@ Seeded changes (plain quick tier of C03, `VERIF_NO_ESCALATE=1`, and as registere
 
 | seed | C03 before | C03 after (plain) | C03 after (as registered) |
 |---|---|---|---|
-@@SEEDROWS@@
+| C03c (parents of different members of one district not joined) | MISSED: exit 0, 0 disagreements in 3 026 (plain) and 20 000 (escalated) cases | caught with replay: 193 failing inputs of 3 249 cases, 5 VIOLATION lines | caught with replay: 1 160 failing inputs of 20 000 |
+| C04c (clique of a fully conditioned district skipped) | MISSED (same runs) | caught with replay: 193 failing inputs, 5 VIOLATION lines | caught with replay: 1 160 failing inputs |
 
 Initial guesses revised after the runs (the `why` column has the argument): **i03** was classified equivalent ("the same up to a nested sum") and is
 not -- a sum over a variable that is no longer free multiplies by its cardinality; C01 and C03 report it with replays.  **g04** breaks C02 only (line 4
@@ -333,6 +334,35 @@ fires less often, never wrongly).  **t05** is equivalent (Lemma 1 never reads th
 the model in 20 480 cases).  **c02** (rule 2 without the treatments in the conditioning set) and **c03 / c04 / c06** only make rule 2 apply LESS often,
 which C03 allows (no completeness clause): the check reports a correspondence disagreement and finds no failing input, as it should.
 **g02** differs from the original only when X and Y overlap (outside the quantifier; 53 disagreements in C02's malformed stream).
+
+**Round 2 result.**  u09 / C02: caught with replay (`ID failed with TypeError (can not use interventions here) on a valid query`, 4 365 failing
+inputs, 50 s).  g03 / C02: caught with replay (`ID failed with RecursionError`, 2 974 failing inputs, 350 s on a machine with load 70; > 700 s
+before).  The eight mutants added after round 1 (i35, i36, u15, c13, c14, t27, t31, t32) are all caught with replays by the checks of the properties
+they break; u15 (a side effect only, outside C03's statement) is flagged by the C03 check's comparison of the caller's objects.  Still open: the
+C01 check on g03 does not finish in 700 s -- g03 does not break C01 (no estimand is returned), so C01 has no failing input, starts its extended
+search (24 000 cases of the thorough stream) and each run-away recursion still costs ~150 frames of graph rebuilds; C02 reports it.
+
+**Streams added on the reviewer's list** (gap review round 5; all appended at the end of the case lists, so the cases a seed produced before are
+unchanged and every seeded change caught before (C01c, C02d, C17d, ...) meets the same inputs as before):
+
+* C03: `collider_chain_family` (above), `multi_exchange_family` (160 quick / 1 200 thorough: 2-4 exchangeable conditions in a row, optionally one that
+  must be refused, optionally a treatment with a bow arc so that ALL exchanges succeed and the final ID call refuses; measured on the unchanged tree:
+  2, 3 and 4 successive exchanges, 76 runs with >= 2 exchanges followed by a refusal), `idc_napkin_family` (120 / 1 000: napkin-like graphs of
+  `napkin_family` with 1-2 extra conditions (parent / child / confounded parent of an outcome, or one of the napkin's own nodes); 90 of 120 final ID calls
+  go 7 -> 6 on a carried estimand); 5-7 nodes, so n >= 6 now occurs.
+* C01: `napkin_tower` (24 / 150: 2- and 3-level nested napkins, ID path 3,7,2,7,2,7,2,6 on 8 binary nodes = 256 states, one model), `multi_district_family`
+  (150 / 1 200: line 4 into 2-3 two-node districts, outcomes in 2-3 districts, |Y| up to 4, 143 of 150 go through line 4 with multi-node districts),
+  60 / 600 random 6-node graphs with |X|, |Y| <= 3 (binary, one model).
+* C02: the same two families (300 / 2 000), half of the towers with one extra bidirected edge (38 refusals only after one, two or three line 7s:
+  paths 3725, 372725, 37272725), and `big_query` on 6-8 nodes with |X| <= 4, |Y| <= 4 (1 200 / 8 000).
+* C17: `_structured_graph(..., nm)`: outside MEDIATORS t1 -> m -> t2 (T is not a block of any topological order; G_T and the IDENTIFY trace are unchanged,
+  only iprob / Lemma-1 product / Lemma-4 ratio forms denote Q[T]); appended stream of ~2 400 quick cases, 263 IDENTIFY calls on a non-block district with
+  recursion depth 1-2 (476 return an expression).
+* NOT added: new entry forms (`Query.from_str`, explicit `estimand=`, str-node graphs).  The form of every case is `options[crc(case) % len(options)]`
+  (harness/forms.py), so a new option re-deals the forms of every case of C01 / C02 / C03 / C06 at once; that needs its own validation round
+  (and `id_slots` is shared with C06, which is not mine).  |X| >= 4 / |Y| >= 3 for C01 beyond 6 nodes: not added (evaluation cost).
+
+All four checks exit 0 with no VIOLATION line on the unchanged tree for VERIF_SEED = 0, 1, 2 after the changes (C06, which shares `id_run.py`: seed 0).
 
 No mutant revealed a defect of the unchanged y0.
 """.split("\n")
